@@ -26,7 +26,7 @@ Fixpoint lok (p : sport) : Prop :=
       dsegs_wf sg /\ last_not_slash (map conv sg) /\
       match sg with NameModel.Lit (c :: _) :: _ => c <> 47 | _ => False end
   | SPort sg a _ (Some l) =>
-      a = [] /\ (exists c, sg = comps_segs [c] /\ dcomp c) /\ lookup_disjoint l /\
+      a = [] /\ (exists cs, sg = comps_segs cs /\ cs <> [] /\ Forall dcomp cs) /\ lookup_disjoint l /\
       (fix all (l : list sport) : Prop := match l with [] => True | x :: r => lok x /\ all r end) l
   end.
 
@@ -113,12 +113,13 @@ Proof.
   intros id a ty Hl H. destruct id as [|j rest]; [contradiction|]. cbn [reaches] in H.
   destruct (nth_error l j) as [[sg args m [l'|]]|] eqn:E; [| |contradiction];
     rewrite Forall_forall in Hl; pose proof (Hl _ (nth_error_In _ _ E)) as Hq; cbn [lok] in Hq.
-  - destruct H as [x [a' [Hx [-> _]]]]. destruct Hq as [_ [[c [-> Hc]] _]].
-    destruct (comp_expand c x Hx) as [y [Hy ->]].
-    destruct Hc as [Hne [_ [Hns _]]]. destruct c as [t0 [n|]]; cbn [comp_conv expand fst] in *.
+  - destruct H as [x [a' [Hx [-> _]]]]. destruct Hq as [_ [[cs [-> [Hcs Hcl]]] _]].
+    destruct (comps_expand cs Hcs x Hx) as [y [Hy ->]].
+    destruct cs as [|c r]; [congruence|]. inversion Hcl as [|? ? Hc _]; subst.
+    destruct Hc as [Hne [_ [Hns _]]]. destruct c as [t0 [n|]]; cbn [comps_conv comp_conv app expand fst] in *.
     + apply in_map_iff in Hy. destruct Hy as [z [<- _]]. destruct t0 as [|c0 t0]; [congruence|].
       cbn [app hd0]. split; [intros ->; apply Hns; left; reflexivity | discriminate].
-    + destruct Hy as [<-|[]]. destruct t0 as [|c0 t0]; [congruence|].
+    + apply in_map_iff in Hy. destruct Hy as [z [<- _]]. destruct t0 as [|c0 t0]; [congruence|].
       cbn [app hd0]. split; [intros ->; apply Hns; left; reflexivity | discriminate].
   - destruct H as [_ [Ha _]]. destruct Hq as [_ [_ Hh]].
     destruct sg as [|[[|c0 s]|n] sg]; try contradiction.
@@ -132,10 +133,10 @@ Proof.
   cbn [reaches] in H. destruct (nth_error l j) as [[sg args m [l'|]]|] eqn:E; [| |contradiction].
   - destruct H as [x [a' [Hx [-> H]]]].
     rewrite Forall_forall in Hl. pose proof (Hl _ (nth_error_In _ _ E)) as Hq. cbn [lok] in Hq.
-    destruct Hq as [_ [[c [-> Hc]] [_ Hall]]].
+    destruct Hq as [_ [[cs [-> [Hne Hc]]] [_ Hall]]].
     apply Forall_app. split; [|eapply IH; [apply lok_all; exact Hall | exact H]].
-    destruct (comp_expand c x Hx) as [y [Hy ->]]. apply Forall_app. split.
-    + apply (expand_chars achar _ dchar_achar digit_achar (comp_conv_wf c Hc) y Hy).
+    destruct (comps_expand cs Hne x Hx) as [y [Hy ->]]. apply Forall_app. split.
+    + apply (expand_chars achar _ dchar_achar digit_achar (comps_conv_wf cs Hc) y Hy).
     + constructor; [unfold achar; lia | constructor].
   - destruct H as [_ [Ha _]]. rewrite Forall_forall in Hl. pose proof (Hl _ (nth_error_In _ _ E)) as Hq.
     cbn [lok] in Hq. apply (expand_chars achar sg dchar_achar digit_achar (proj1 Hq) a Ha).
@@ -180,18 +181,18 @@ Proof.
   - (* through a sub-tree port *)
     destruct H as [x [a' [Hx [-> H]]]].
     pose proof Hl as Hl0. rewrite Forall_forall in Hl0. pose proof (Hl0 _ (nth_error_In _ _ E)) as Hq. cbn [lok] in Hq.
-    destruct Hq as [-> [[c [-> Hc]] [Hd' Hall]]].
+    destruct Hq as [-> [[cs [-> [Hcs Hc]]] [Hd' Hall]]].
     assert (Haddr : addr_ok (x ++ a')) by (eapply Forall_impl; [|exact Hch]; intros ch Hc'; apply Hc').
-    destruct (subtree_matches c ty x a' Hc Hx Haddr Hty) as [Hm _].
+    destruct (subtree_matches cs ty x a' Hcs Hc Hx Haddr Hty) as [Hm _].
     destruct (rtosc_match_path_of _ _ _ _ Hm) as [r Hmp].
-    set (q := SPort (comps_segs [c]) [] m' (Some l')) in *.
+    set (q := SPort (comps_segs cs) [] m' (Some l')) in *.
     assert (Hans : exists r pe, match_path (sname q) (x ++ a') = MRet r pe) by (exists r, a'; exact Hmp).
     destruct (others_silent l j q (x ++ a') Hd E Haddr Hans) as [pre [post [-> [Hlen [Hpre _]]]]].
     rewrite map_app. cbn [map]. rewrite loop1_skip by exact Hpre. cbn [apropos_loop1].
     rewrite pname_render, psub_render. unfold q at 1 2 3. cbn [sname].
-    change (render_name (comps_segs [c]) []) with (flatten (comps_segs [c]) ++ []).
-    replace (has_char 47 (flatten (comps_segs [c]) ++ [])) with true
-      by (rewrite comp_flatten, !has_char_app; cbn; rewrite orb_true_r; reflexivity).
+    change (render_name (comps_segs cs) []) with (flatten (comps_segs cs) ++ []).
+    replace (has_char 47 (flatten (comps_segs cs) ++ [])) with true
+      by (rewrite (comps_flatten cs Hcs), !has_char_app; cbn; rewrite orb_true_r; reflexivity).
     rewrite Hmp.
     destruct (reaches_hd l' _ a' ty (lok_all _ Hall) H) as [_ Hne'].
     destruct a' as [|c0 a'']; [congruence|]. cbn [is_nil negb].
@@ -248,7 +249,7 @@ Example ex_d_lok : Forall lok ex_d /\ lookup_disjoint ex_d /\
 Proof.
   split; [|split; [apply singleton_lookup_disjoint | vm_compute; reflexivity]].
   constructor; [|constructor]. cbn [lok ex_d]. split; [reflexivity|]. split.
-  - eexists. split; [reflexivity|]. unfold dcomp. cbn [fst snd].
+  - eexists. split; [reflexivity|]. split; [discriminate|]. constructor; [|constructor]. unfold dcomp. cbn [fst snd].
     split; [discriminate|]. split; [constructor; [unfold dchar; lia | constructor]|].
     split; [intros [H|[]]; discriminate|]. split; [reflexivity | lia].
   - split; [apply singleton_lookup_disjoint|]. split; [|exact I].
